@@ -26,9 +26,10 @@ def main():
                 before = json.dumps(project(graph), sort_keys=True)
                 so = {pop_var(k + 1): {var(i) for i in w} for k, (z, w) in enumerate(doms)}
                 si = {pop_var(k + 1): {var(i) for i in z} for k, (z, w) in enumerate(doms)}
-                if order % 2:  # dictionaries built in the other order
-                    so = dict(reversed(list(so.items())))
+                if order % 2:  # the two dictionaries filled in different key orders
                     si = dict(reversed(list(si.items())))
+                if order % 4 >= 2:
+                    so = dict(reversed(list(so.items())))
                 try:
                     e = identify_target_outcomes(graph, target_outcomes={var(i) for i in y},
                                                  target_interventions={var(i) for i in x},
